@@ -4,9 +4,12 @@
 package main
 
 import (
+	"bytes"
+	"encoding/binary"
 	"fmt"
 	"math"
 	"math/big"
+	"path/filepath"
 	"sort"
 	"strings"
 
@@ -14,6 +17,10 @@ import (
 	"github.com/gcash/bchd/wire"
 	"github.com/gcash/bchutil/txsort"
 
+	"encoding/json"
+
+	"verif/harness/cmd/c16/srclits"
+	"verif/harness/cmd/c17/prodrun"
 	"verif/harness/internal/vh"
 )
 
@@ -1242,6 +1249,7 @@ func main() {
 		curVersion, curLockTime = 2, 77
 	}
 	_ = wide
+	coincidingOrders(rng.Fork("coinciding"), wide)
 
 	rep.Extra["small_scope_tuples"] = count
 	rep.Cases = cases.Len()
@@ -1250,4 +1258,316 @@ func main() {
 	vh.Must(err)
 	vh.Must(rep.Write(cfg))
 	fmt.Printf("c18: %d implementation executions, %d correspondence cases, %d monitor violations\n", rep.Evaluations, rep.Cases, len(rep.Violations))
+}
+
+// ---------- orders that coincide with BIP69 on easy inputs (round 3) ----------
+// Sort / InPlaceSort hand a slice type to sort.Sort; which Less that type has is invisible from the
+// call.  A wrong order that agrees with BIP69 on most inputs (the stored bytes compared front to
+// back, the index compared first, the index compared first only among ids sharing a leading or
+// trailing run of bytes, ties among equal ids broken downwards, amounts compared unsigned ...) is
+// told apart only by inputs built for the purpose.  For every PREFIX (lengths 0..32; zero, 0xff,
+// random, every byte string and number that occurs as a literal in the package source - forwards
+// and backwards - and memorable numbers) placed at either end of the stored hash in either
+// direction, transactions of 2..6 inputs are built whose ids all carry the prefix, whose remaining
+// bytes differ (randomly, or in one byte), and whose indices run AGAINST the id order (plus one id
+// used twice with two indices); outputs likewise with amounts from the same number pool, equal
+// amounts with scripts sharing the prefix, and script order against amount order.  Every such
+// transaction goes through the ordinary monitors (Sort, InPlaceSort, IsSorted against the BIP69
+// reference, inputs and outputs judged separately).  The histogram counts, per alternative key, the
+// transactions on which that key and BIP69 disagree (alt_order_distinguished/<key>).
+//
+// Also: every integer table in the source that is a permutation is used as a rank layout of the
+// inputs and of the outputs (with its inverse), next to the generic layouts (reversed, rotated,
+// organ pipe, interleaved) at the lengths 2..16, 31..33, 63..65.
+func coincidingOrders(r *vh.RNG, wide bool) {
+	dict := srclits.Harvest(true, filepath.Join(srclits.RepoDir(), "txsort"))
+	rep.Extra["dictionary"] = map[string]interface{}{"files": dict.Files, "source_literals": len(dict.Raw), "byte_strings": len(dict.Bytes), "permutation_tables": len(dict.Perms()) / 2}
+	type altKey struct {
+		name string
+		less func(a, b inEl) bool
+	}
+	topEq := func(a, b inEl, k int) bool { // the k most significant bytes of the id agree
+		for i := 0; i < k; i++ {
+			if a.Hash[31-i] != b.Hash[31-i] {
+				return false
+			}
+		}
+		return true
+	}
+	alts := []altKey{
+		{"stored_bytes_front_to_back", func(a, b inEl) bool {
+			if c := bytes.Compare(a.Hash[:], b.Hash[:]); c != 0 {
+				return c < 0
+			}
+			return a.Index < b.Index
+		}},
+		{"index_first", func(a, b inEl) bool {
+			if a.Index != b.Index {
+				return a.Index < b.Index
+			}
+			return refInLess(a, b)
+		}},
+		{"index_descending_among_equal_ids", func(a, b inEl) bool {
+			if a.Hash != b.Hash {
+				return refInLess(a, b)
+			}
+			return a.Index > b.Index
+		}},
+		{"index_signed", func(a, b inEl) bool {
+			if a.Hash != b.Hash {
+				return refInLess(a, b)
+			}
+			return int32(a.Index) < int32(b.Index)
+		}},
+	}
+	for _, k := range []int{1, 2, 4, 5, 8, 16, 31} {
+		k := k
+		alts = append(alts, altKey{fmt.Sprintf("index_first_among_ids_sharing_%d_leading_bytes", k), func(a, b inEl) bool {
+			if topEq(a, b, k) && a.Index != b.Index {
+				return a.Index < b.Index
+			}
+			return refInLess(a, b)
+		}})
+	}
+	judge := func(ins []inEl) {
+		want := append([]inEl(nil), ins...)
+		sort.SliceStable(want, func(i, j int) bool { return refInLess(want[i], want[j]) })
+		for _, a := range alts {
+			got := append([]inEl(nil), ins...)
+			sort.SliceStable(got, func(i, j int) bool { return a.less(got[i], got[j]) })
+			for i := range got {
+				if inKey(got[i]) != inKey(want[i]) {
+					rep.Histogram["alt_order_distinguished/"+a.name]++
+					break
+				}
+			}
+		}
+	}
+	// prefixes
+	var prefixes [][]byte
+	for _, L := range []int{0, 1, 2, 3, 4, 5, 6, 8, 12, 16, 24, 31} {
+		z := make([]byte, L)
+		f := bytes.Repeat([]byte{0xff}, L)
+		prefixes = append(prefixes, z, f, r.Bytes(L))
+		if wide {
+			prefixes = append(prefixes, r.Bytes(L), r.Bytes(L))
+		}
+	}
+	for _, b := range dict.Bytes {
+		if len(b) <= 31 {
+			prefixes = append(prefixes, b)
+		}
+	}
+	nums := dict.Raw
+	if wide {
+		nums = dict.Numbers(400)
+	} else {
+		nums = append(append([]int64(nil), nums...), 0xdeadbeef, 0xbeef, 1234567891, 0xcafebabe, 123456789)
+	}
+	for _, v := range nums {
+		if v > 255 || v < 0 {
+			var b8 [8]byte
+			binary.BigEndian.PutUint64(b8[:], uint64(v))
+			p := bytes.TrimLeft(b8[:], "\x00")
+			prefixes = append(prefixes, append([]byte(nil), p...))
+		}
+	}
+	place := func(p []byte, mode int, tail []byte) [32]byte {
+		var h [32]byte
+		copy(h[:], tail)
+		for k, v := range p {
+			switch mode {
+			case 0: // leading bytes of the id as displayed, in display order
+				h[31-k] = v
+			case 1: // leading bytes of the id as displayed, written backwards
+				h[31-(len(p)-1-k)] = v
+			case 2: // front of the stored bytes
+				h[k] = v
+			default: // front of the stored bytes, backwards
+				h[len(p)-1-k] = v
+			}
+		}
+		return h
+	}
+	scr := func(p []byte, tail []byte) []byte { return append(append([]byte(nil), p...), tail...) }
+	for pi, p := range prefixes {
+		for mode := 0; mode < 4; mode++ {
+			if len(p) == 0 && mode > 0 {
+				continue
+			}
+			for _, m := range []int{2, 3, 4, 6} {
+				for variant := 0; variant < 3; variant++ {
+					// ids carrying the prefix; the free bytes: random / differing in one byte of a common base
+					hs := make([][32]byte, m)
+					base := r.Bytes(32)
+					for i := range hs {
+						tail := r.Bytes(32)
+						if variant == 1 {
+							tail = append([]byte(nil), base...)
+							if free := 32 - len(p); free > 0 {
+								q := r.Intn(free)
+								if mode < 2 {
+									tail[q] = byte(i*37 + 1)
+								} else {
+									tail[31-q] = byte(i*37 + 1)
+								}
+							}
+						}
+						hs[i] = place(p, mode, tail)
+					}
+					ins := make([]inEl, m)
+					for i := range ins {
+						ins[i] = inEl{hs[i], 0, nil, 0xffffffff}
+					}
+					sort.SliceStable(ins, func(i, j int) bool { return refInLess(ins[i], ins[j]) })
+					for i := range ins { // indices against the id order
+						ins[i].Index = uint32(m - 1 - i)
+						if variant == 2 {
+							ins[i].Index = []uint32{0xffffffff, 0x80000000, 0x7fffffff, 65536, 255, 1, 0}[i%7]
+						}
+					}
+					// one id twice, with two indices
+					if m >= 3 {
+						ins = append(ins, inEl{ins[0].Hash, ins[0].Index + 7, []byte{1}, 0})
+					}
+					for k := len(ins) - 1; k > 0; k-- {
+						j := r.Intn(k + 1)
+						ins[k], ins[j] = ins[j], ins[k]
+					}
+					// outputs: amounts from the pool in one order, scripts sharing the prefix in the other; equal amounts
+					outs := make([]outEl, m)
+					for i := range outs {
+						v := int64(i)
+						if len(nums) > 0 && variant != 1 {
+							v = nums[(pi+i*7)%len(nums)]
+						}
+						outs[i] = outEl{Value: v, Script: scr(p, []byte{byte(200 - i*13), byte(i)})}
+					}
+					if variant == 1 {
+						for i := range outs {
+							outs[i].Value = outs[0].Value
+						}
+					}
+					judge(ins)
+					rep.Histogram["coinciding_order_tx"]++
+					runTx(ins, outs, false)
+					prodAdd(ins, outs)
+				}
+			}
+		}
+	}
+	// rank layouts
+	var layouts [][]int
+	layouts = append(layouts, dict.Perms()...)
+	for _, n := range []int{2, 3, 4, 5, 6, 7, 8, 9, 10, 11, 12, 13, 14, 15, 16, 31, 32, 33, 63, 64, 65} {
+		rev, rot, pipe, inter := make([]int, n), make([]int, n), make([]int, n), make([]int, n)
+		for i := 0; i < n; i++ {
+			rev[i] = n - 1 - i
+			rot[i] = (i + 1) % n
+			if i%2 == 0 {
+				pipe[i/2] = i
+				inter[i] = i / 2
+			} else {
+				pipe[n-1-i/2] = i
+				inter[i] = (n+1)/2 + i/2
+			}
+		}
+		layouts = append(layouts, rev, rot, pipe, inter)
+		for k := 0; k < 3; k++ {
+			p := make([]int, n)
+			for i := range p {
+				p[i] = i
+			}
+			for i := n - 1; i > 0; i-- {
+				j := r.Intn(i + 1)
+				p[i], p[j] = p[j], p[i]
+			}
+			layouts = append(layouts, p)
+		}
+	}
+	for li, lay := range layouts {
+		for variant := 0; variant < 3; variant++ {
+			ins := make([]inEl, len(lay))
+			outs := make([]outEl, len(lay))
+			base := r.Bytes(32)
+			for i, rank := range lay {
+				var h [32]byte
+				switch variant {
+				case 0: // the rank in the most significant byte(s) of the id
+					copy(h[:], r.Bytes(32))
+					h[31], h[30] = byte(rank>>8), byte(rank)
+				case 1: // common id, the rank is the index
+					copy(h[:], base)
+				default: // the rank in the least significant bytes, everything else equal
+					copy(h[:], base)
+					h[0], h[1] = byte(rank), byte(rank>>8)
+				}
+				ins[i] = inEl{h, uint32(len(lay) - rank), nil, 0}
+				if variant == 1 {
+					ins[i].Index = uint32(rank)
+				}
+				outs[i] = outEl{Value: int64(rank) - int64(variant), Script: []byte{byte(255 - rank)}}
+				if variant == 2 {
+					outs[i] = outEl{Value: 546, Script: []byte{0x76, byte(rank >> 8), byte(rank)}}
+				}
+			}
+			rep.Histogram["rank_layout_tx"]++
+			if li < len(dict.Perms()) {
+				rep.Histogram["rank_layout_tx_from_source_table"]++
+			}
+			runTx(ins, nil, false)
+			runTx(nil, outs, false)
+			runTx(ins, outs, false)
+			prodAdd(ins, outs)
+		}
+	}
+	runProd()
+}
+
+// ---------- the build that ships ----------
+// The transactions of the two families above are also given to harness/cmd/c18/prod, a child built
+// at run time WITHOUT -tags verif in a scratch module (harness/cmd/c17/prodrun): this harness is
+// built with the tag, so files selected by `//go:build !verif` are invisible to it.
+type prodIn struct {
+	Hash  string `json:"h"`
+	Index uint32 `json:"i"`
+}
+type prodOut struct {
+	Value  int64  `json:"v"`
+	Script string `json:"s"`
+}
+type prodTx struct {
+	Ins  []prodIn  `json:"ins"`
+	Outs []prodOut `json:"outs"`
+}
+
+var prodTxs []prodTx
+
+func prodAdd(ins []inEl, outs []outEl) {
+	var t prodTx
+	for _, e := range ins {
+		t.Ins = append(t.Ins, prodIn{vh.Hex(e.Hash[:]), e.Index})
+	}
+	for _, e := range outs {
+		t.Outs = append(t.Outs, prodOut{e.Value, vh.Hex(e.Script)})
+	}
+	prodTxs = append(prodTxs, t)
+}
+
+func runProd() {
+	stdin, _ := json.Marshal(prodTxs)
+	o, err := prodrun.Run(cfg.Out, "c18", "cmd/c18/prod", stdin)
+	if err != nil {
+		rep.Extra["production_build"] = "NOT RUN: " + err.Error()
+		rep.Histogram["production_build/not_run"]++
+		return
+	}
+	rep.Extra["production_build"] = map[string]interface{}{"main_module": o.MainPath, "build_tags": o.Tags, "executions": o.Executions, "build_seconds": o.BuildSecs, "run_seconds": o.RunSecs}
+	rep.Evaluations += o.Executions
+	for k, v := range o.Histogram {
+		rep.Histogram["production_build/"+k] += v
+	}
+	for _, v := range o.Violations {
+		rep.Violate(v.Key, v.What+" [build without -tags verif]", v.Replay)
+	}
 }
